@@ -503,6 +503,11 @@ for _p in ('C18', 'C02', 'C01', 'C09', 'C07'):
 NATIVE_DEC = [(UN, 'native.decoder::SequenceOrSetPayloadDecoder.__call__'), (UN, 'native.decoder::SequenceOfOrSetOfPayloadDecoder.__call__'),
               (UN, 'native.decoder::ChoicePayloadDecoder.__call__')]
 PROPS['C17']['contracts'] = PROPS['C17']['contracts'] + NATIVE_DEC
+# the asn1Spec path decides "equals the DEFAULT" through the encodings when the Python value has another form; a SET OF default
+# compares as a multiset (f3512ce)
+PROPS['C17']['contracts'] = PROPS['C17']['contracts'] + [
+    (E, 'ber.encoder::SequenceEncoder._encodesAsDefault[set-of,2-members]'),
+    (E, 'ber.encoder::SequenceEncoder._encodesAsDefault[not-a-set-of]')]
 # C12: the native decoders leave the guiding type alone; a nested WITH COMPONENTS asks a record without instantiating
 PROPS['C12']['contracts'] = PROPS['C12']['contracts'] + NATIVE_DEC + [
     (CN, 'type.constraint::WithComponentsConstraint._testValue[one-entry]'),
